@@ -104,8 +104,10 @@ theorem mkCell_inv (r : Region) (cell : List Rat) (bc : String) (g : Mesh) (h : 
         · cases h
         · split at h
           · cases h
-          · injection h with h; subst h
-            exact ⟨not_not.mp hl, rfl, rfl, rfl⟩
+          · split at h
+            · cases h
+            · injection h with h; subst h
+              exact ⟨not_not.mp hl, rfl, rfl, rfl⟩
 
 theorem indexAx_lt (m : Mesh) (a : Nat) (x : Rat) (hn : 0 < m.nAt a) : m.indexAx a x < m.nAt a := by
   unfold Mesh.indexAx Mesh.clipInt
